@@ -141,6 +141,7 @@ func Load(opts LoadOpts) (*Prog, error) {
 		return nil, fmt.Errorf("only %d module packages loaded, expected at least 10", len(p.Pkgs))
 	}
 	p.collectFuncs()
+	CurrentProg = p
 	if opts.Whole {
 		p.buildVTA()
 	}
